@@ -17,6 +17,7 @@ def sim_spec(rng):
     c['hh'] = dict(c['hh'], portfolio=None, F0=None)
     c['cap'] = None
     c['custom'] = None
+    c['second_market'] = None
     c['firm'] = {'form': 'fixed', 'margin': 0.0}
     spec['gifts'] = []
     return spec
@@ -65,7 +66,8 @@ class C08(object):
             'distinct = hash of (spec, orders); non-trivial = >= 2 distinct orders compared')
     assumptions = ['country order and Region default-currency inheritance are documented order dependence and fixed',
                    'wiring calls (AddSupplier, SetExogenous, RegisterCashFlow, portfolio rules) follow the declarations']
-    required_counters = ('builds.compared', 'builds.compared_exactly', 'orders.distinct')
+    required_counters = ('builds.compared', 'builds.compared_exactly', 'orders.distinct',
+                         'zone_queried_during_construction.cases')
 
     def n_cases(self, tier):
         return 12 if tier == 'quick' else 30 + 270
@@ -84,13 +86,18 @@ class C08(object):
         spec = M.gen_spec(rng, n_zones=nz, maxtime=rng.randint(3, 5))
         n = 6 if tier == 'quick' else 12
         return {'kind': 'orders', 'spec': spec, 'order_seeds': [rng.getrandbits(30) for _ in range(n)],
-                'ext_first': [rng.random() < 0.5 for _ in range(n)]}
+                'ext_first': [rng.random() < 0.5 for _ in range(n)],
+                # the public zone API (GetSectors / LookupSector) is used while the sectors are being declared
+                'query_zone': rng.random() < 0.5}
 
     def run_case(self, case):
         rec = monitors.Recorder()
         spec = case['spec']
         shape = M.shape_of(spec)
-        base = M.build(spec)
+        qz = bool(case.get('query_zone'))
+        if qz:
+            rec.count('zone_queried_during_construction.cases')
+        base = M.build(spec, query_zone=qz)
         if base.error is not None:
             return {'verdict': 'notjudged', 'shape': shape + '|base:' + type(base.error).__name__}
         try:
@@ -101,7 +108,7 @@ class C08(object):
         variants = []
         if case['kind'] == 'orders':
             for sd, ef in zip(case['order_seeds'], case['ext_first']):
-                variants.append({'order_seed': sd, 'ext_first': ef})
+                variants.append({'order_seed': sd, 'ext_first': ef, 'query_zone': qz})
         else:
             ck = spec['zones'][0]['countries'][0]['key']
             for p in case['perms']:
